@@ -338,6 +338,21 @@ def NoFold (o : HOpts) (g : Goal) (eps : Rat) (i : Nat) : Prop :=
   foldEq o.equalityThreshold (g.hasMin && g.hasMax) (targetLo g eps i) (targetHi g eps i)
     = (targetLo g eps i, targetHi g eps i)
 
+/-- one-sided goals never fold -/
+theorem noFold_of_one_sided (o : HOpts) (g : Goal) (eps : Rat) (i : Nat)
+    (h : (g.hasMin && g.hasMax) = false) : NoFold o g eps i := by
+  unfold NoFold foldEq
+  rw [h]
+  split <;> simp
+
+/-- two bounds at least `equality_threshold` apart do not fold -/
+theorem noFold_of_gap (o : HOpts) (g : Goal) (eps : Rat) (i : Nat) (a b : Rat)
+    (ha : targetLo g eps i = EVal.fin a) (hb : targetHi g eps i = EVal.fin b)
+    (hgap : o.equalityThreshold ≤ qabs (a - b)) : NoFold o g eps i := by
+  unfold NoFold foldEq
+  rw [ha, hb]
+  simp [not_lt.2 hgap]
+
 /-- the soft rows of a target goal hold at the solution (scalar goal, component 0) -/
 def SoftOK (g : Goal) (s : Sol) (gj i : Nat) : Prop :=
   (∀ tm lo, g.hasMin = true → g.mAt 0 i = XVal.e (EVal.fin tm) → g.loAt 0 = XVal.e (EVal.fin lo) →
